@@ -27,7 +27,11 @@ fn check_split_into<const N: usize>(ifs_chars: &str, input: [char; N]) {
         expected[n] = (r.start, r.end);
         n += 1;
     }
-    let field = AttrField { chars, origin: Location::dummy("") };
+    // a second handle on the location keeps its reference count above zero: when `split_into` drops the field (no
+    // resulting field) only a counter is decremented instead of CBMC executing the drop glue of Rc<Code> -> Source
+    let origin = Location::dummy("");
+    let keep = origin.clone();
+    let field = AttrField { chars, origin };
     let mut results: Vec<AttrField> = Vec::new();
     split_into(field, &ifs, &mut results);
     assert!(results.len() == n, "as many fields as ranges");
@@ -43,6 +47,7 @@ fn check_split_into<const N: usize>(ifs_chars: &str, input: [char; N]) {
         k += 1;
     }
     std::mem::forget(results);
+    std::mem::forget(keep);
 }
 
 #[kani::proof]
@@ -57,10 +62,6 @@ fn c01q_split_into_leading_separator() {
     check_split_into::<3>(";", [';', 'a', 'b']);
 }
 
-// NOTE: inputs that yield NO field (white space only, the empty input) were tried and withdrawn: each exceeded 240 s on
-// the unchanged tree, because the field is then dropped inside `split_into` and CBMC has to execute the drop glue of
-// `Location` (Rc<Code> -> Source, a recursive type); in all other cases the field ends up in `results`, which the
-// harness forgets.
 #[kani::proof]
 #[kani::unwind(8)]
 fn c01t_split_into_one_separator() {
@@ -71,6 +72,18 @@ fn c01t_split_into_one_separator() {
 #[kani::unwind(8)]
 fn c01q_split_into_two_separators() {
     check_split_into::<2>(";", [';', ';']);
+}
+
+#[kani::proof]
+#[kani::unwind(8)]
+fn c01q_split_into_white_space_only() {
+    check_split_into::<2>(" ", [' ', ' ']);
+}
+
+#[kani::proof]
+#[kani::unwind(8)]
+fn c01q_split_into_empty_input() {
+    check_split_into::<0>(" ", []);
 }
 
 #[kani::proof]
